@@ -97,7 +97,8 @@ w("C09", {
 F10 = ["api", "ref_wire", "kit_clnt", "c10"]
 MODES = {0: "stream cut", 1: "garbage frame (type byte 99)", 2: "frame announcing size 5", 3: "well-formed reply with an unknown tag", 4: "frame announcing size 8*msize+1 followed by 8*msize bytes, then end of stream",
          5: "Unmount() from another goroutine", 6: "transport refuses the a-th request (Write error)",
-         7: "the peer stops reading (the Write of the a-th request blocks until the connection is closed locally) and sends a garbage frame"}
+         7: "the peer stops reading (the Write of the a-th request blocks until the connection is closed locally) and sends a garbage frame",
+         8: "[client built by NewClnt, 65535 tags] the peer stops reading (the Write of the a-th request blocks until the connection is closed locally) and sends a garbage frame"}
 def h10(n, a, mode, bcut, P, race=False, timeout=600):
     where = "injected by the main goroutine while the callers enter Rpc" if a == 0 else f"at the arrival of request #{a}"
     cut = ""
@@ -106,7 +107,7 @@ def h10(n, a, mode, bcut, P, race=False, timeout=600):
     # mode 4 ends every path in the receive loop's panic on the current tree: no 'done' witness is demanded
     reach = [] if mode == 4 else ["done"]
     return {"harness": "vxH10Cut", "args": [str(n), str(a), str(mode), str(bcut), "true"], "files": F10, "preempt": P, "race": race, "reach": reach, "timeout_s": timeout,
-            "bounds": f"{n} concurrent Clnt.Read callers + 1 later call, msize 32, pool of 4 tags; requests before #{a} answered completely; failure: {MODES[mode]} {where} {cut}; all schedules with <= {P} preemptions"}
+            "bounds": f"{n} concurrent Clnt.Read callers + 1 later call, msize 32, pool of 4 tags (mode 8: NewClnt); requests before #{a} answered completely; failure: {MODES[mode]} {where} {cut}; all schedules with <= {P} preemptions"}
 def c10(quick):
     runs = []
     # one caller: every mode, failure from outside (a=0) and at its own request (a=1)
@@ -119,6 +120,7 @@ def c10(quick):
     runs.append(h10(1, 1, 7, 3, 2 if quick else 3))
     runs.append(h10(2, 1, 7, 3, 1))
     runs.append(h10(2, 2, 7, 3, 1))
+    runs.append(h10(2, 1, 8, 3, 0))
     # two callers
     for mode, P in ((0, 1), (3, 1), (6, 1), (5, 0 if quick else 1), (1, 0 if quick else 1), (2, 0 if quick else 1), (4, 0 if quick else 1)):
         for a in (0, 1, 2):
